@@ -396,10 +396,11 @@ funcbits(struct func *f, struct type *t, struct value *v, struct bitfield b)
 
 	class = t->size <= 4 ? 'w' : 'l';
 	bits = b.after;
-	if (bits) {
+	/* for a bit-field, also shift out the bits of the register above the storage unit */
+	if (bits || b.before)
 		bits += (t->size + 3 & ~3) - t->size << 3;
+	if (bits)
 		v = funcinst(f, ISHL, class, v, mkintconst(bits));
-	}
 	bits += b.before;
 	if (bits)
 		v = funcinst(f, t->u.basic.issigned ? ISAR : ISHR, class, v, mkintconst(bits));
